@@ -197,7 +197,9 @@ func ruleStoreOpenNonFatal(c *Ctx) {
 // reference-carrying field from the field of the same name.
 func ruleConverters(c *Ctx) {
 	refFields := map[string]bool{"Name": true, "Cache": true, "Upstream": true, "Locations": true, "Compress": true, "Addr": true, "Store": true, "Size": true,
-		"Prefixes": true, "Hosts": true, "Rewrites": true, "Policy": true, "AcceptEncoding": true, "EnableH2C": true, "Backup": true, "LogFormat": true}
+		"Prefixes": true, "Hosts": true, "Rewrites": true, "Policy": true, "AcceptEncoding": true, "EnableH2C": true, "Backup": true, "LogFormat": true, "HealthCheck": true}
+	// names and selectors that must arrive unedited: the value stored is the configuration field itself
+	verbatim := map[string]bool{"Name": true, "Cache": true, "Upstream": true, "Compress": true, "Policy": true, "AcceptEncoding": true, "HealthCheck": true, "Addr": true, "Store": true}
 	convs := []struct{ pkg, fn string }{{"cache", "convertConfigs"}, {"server", "convertConfig"}, {"location", "convertConfigs"}, {"upstream", "convertConfigs"}, {"compress", "convertConfigs"}}
 	for _, cv := range convs {
 		fn := c.P.Func(cv.pkg, cv.fn)
@@ -225,6 +227,9 @@ func ruleConverters(c *Ctx) {
 					continue
 				}
 				seen[e.Addr.Name] = src
+				if v := stripConvTerm(e.Val); verbatim[e.Addr.Name] && src == e.Addr.Name && v.Op != "fld" && !(v.Op == "init" && v.Args[0].Op == "fa") {
+					bad = append(bad, fmt.Sprintf("option field %s is not the configured value itself but %s", e.Addr.Name, prettyTerm(v)))
+				}
 				if src != e.Addr.Name {
 					bad = append(bad, fmt.Sprintf("option field %s is filled from configuration field %s", e.Addr.Name, src))
 				}
